@@ -7,6 +7,7 @@ let table = [
   ("stages", Model.entry_stages);
   ("vss", Model.entry_vss);
   ("bn", Model.entry_bn2);
+  ("asm", Model.entry_asm);
   ("evm", Model.entry_evm);
   ("recover", Model.entry_recover);
   ("guards", Model.entry_guards);
